@@ -15,10 +15,12 @@ LIVE = {'thorough': ['incr-decr-restart', 'exit3-respawn']}
 GRAPH = {'quick': 2, 'thorough': 3}
 BUDGET = {'quick': 150, 'thorough': 1500}
 RULE = ('breadth-first search over canonical quiescent daemon states; from every new state all bursts of '
-        '<= (1 request + 1 worker death) [thorough: 1 request + 2 deaths] placed at every loop-iteration boundary '
+        '<= (1 request + 1 worker death) placed at every loop-iteration boundary '
         '(requests, deaths) and before every kernel call (deaths) of one check period and of whatever the '
         'burst sets in motion; after each burst 3 periodic checks, then the convergence / generation / fixpoint '
-        'oracles; a state is the canonical digest of watchers, options, process table and timers')
+        'oracles; a state is the canonical digest of watchers, options, process table and timers; configurations include a '
+        'bystander watcher, a dense (0.3 s) check period, a transient exec fault at the j-th process creation, an after_spawn '
+        'hook that rejects the k-th worker, and max_age')
 ASSUMPTIONS = ['numprocesses capped at 3 (incr disabled at the cap) so that the state graph is finite']
 
 NP_CAP = 3
